@@ -1551,3 +1551,141 @@ func derivesFromOtherThanCall(v ssa.Value, addFn *ssa.Function) bool {
 	rec(v)
 	return bad
 }
+
+func init() {
+	register("INV-13", "only registration, indexing, cloning and loading write the working memory's registry and index; nothing removes from them", 12, ruleINV13)
+}
+
+// INV-13 (who-may-write): the registry (…SnapshotMap) and the invalidation index (…VariableMap) of a working memory are
+// append-only for the life of a knowledge base. A function that deletes from them, or replaces them outside
+// IndexVariables / the constructors, disconnects remembered values from the events that must clear them.
+func ruleINV13(c *Ctx) {
+	p := c.P
+	wmT := p.Named("ast", "WorkingMemory")
+	if wmT == nil {
+		c.AnchorLost("ast.WorkingMemory")
+		return
+	}
+	st, _ := wmT.Underlying().(*types.Struct)
+	isWMMap := func(f *types.Var) bool {
+		if f == nil || st == nil {
+			return false
+		}
+		for i := 0; i < st.NumFields(); i++ {
+			if st.Field(i) == f {
+				_, isMap := f.Type().Underlying().(*types.Map)
+				return isMap
+			}
+		}
+		return false
+	}
+	type perm struct{ regUpdate, idxUpdate, idxReplace, onOwnAllocOnly bool }
+	allowed := map[*ssa.Function]perm{}
+	names := map[*ssa.Function]string{}
+	add := func(fn *ssa.Function, name string, pm perm) {
+		if fn == nil {
+			c.AnchorLost(name)
+			return
+		}
+		allowed[fn] = pm
+		names[fn] = name
+	}
+	add(p.Func("ast", "NewWorkingMemory"), "NewWorkingMemory", perm{onOwnAllocOnly: true, regUpdate: true, idxUpdate: true, idxReplace: true})
+	add(p.Method("ast", "WorkingMemory", "Clone"), "WorkingMemory.Clone", perm{onOwnAllocOnly: true, regUpdate: true, idxUpdate: true, idxReplace: true})
+	add(p.Method("ast", "Catalog", "BuildKnowledgeBase"), "Catalog.BuildKnowledgeBase", perm{onOwnAllocOnly: true, regUpdate: true, idxUpdate: true, idxReplace: true})
+	add(p.Method("ast", "WorkingMemory", "IndexVariables"), "WorkingMemory.IndexVariables", perm{idxUpdate: true, idxReplace: true})
+	add(p.Method("ast", "WorkingMemory", "AddExpression"), "WorkingMemory.AddExpression", perm{regUpdate: true})
+	add(p.Method("ast", "WorkingMemory", "AddExpressionAtom"), "WorkingMemory.AddExpressionAtom", perm{regUpdate: true})
+	add(p.Method("ast", "WorkingMemory", "AddVariable"), "WorkingMemory.AddVariable", perm{regUpdate: true})
+	fromWM := func(v ssa.Value) (*types.Var, ssa.Value) {
+		var hit *types.Var
+		var base ssa.Value
+		backSlice(v, func(w ssa.Value) bool {
+			if f, b := fieldLoad(w); isWMMap(f) {
+				hit, base = f, b
+				return false
+			}
+			if fa, ok := w.(*ssa.FieldAddr); ok && isWMMap(fieldOfAddr(fa)) {
+				hit, base = fieldOfAddr(fa), unspill(fa.X)
+				return false
+			}
+			return hit == nil
+		})
+		return hit, base
+	}
+	isIdx := func(f *types.Var) bool { return strings.HasSuffix(f.Name(), "VariableMap") }
+	writes := 0
+	for _, fn := range p.ModuleFuncs() {
+		if strings.HasSuffix(p.Pos(fn.Pos()), "_test.go") {
+			continue
+		}
+		root := fn
+		for root.Parent() != nil {
+			root = root.Parent()
+		}
+		for _, b := range fn.Blocks {
+			for _, in := range b.Instrs {
+				var f *types.Var
+				var base ssa.Value
+				kind := ""
+				switch in := in.(type) {
+				case *ssa.Store:
+					if ff, bb, _ := fieldStore(in); isWMMap(ff) {
+						f, base, kind = ff, bb, "replace"
+					} else if ia, ok := in.Addr.(*ssa.IndexAddr); ok {
+						if ff, bb := fromWM(ia.X); ff != nil {
+							f, base, kind = ff, bb, "update"
+						}
+					}
+				case *ssa.MapUpdate:
+					if ff, bb := fromWM(in.Map); ff != nil {
+						f, base, kind = ff, bb, "update"
+					}
+				case ssa.CallInstruction:
+					if bi, ok := in.Common().Value.(*ssa.Builtin); ok && (bi.Name() == "delete" || bi.Name() == "clear") && len(in.Common().Args) >= 1 {
+						if ff, _ := fromWM(in.Common().Args[0]); ff != nil {
+							c.Fail(fmt.Sprintf("%s / removes from WorkingMemory.%s", fnName(fn), ff.Name()), p.InstrPos(in.(ssa.Instruction)), fmt.Sprintf("%s(…) on WorkingMemory.%s: nodes stay linked into the rules but lose their registration/index entry, so no later assignment or Forget clears what they remember", bi.Name(), ff.Name()))
+						}
+					}
+				}
+				if f == nil {
+					continue
+				}
+				writes++
+				key := fmt.Sprintf("%s / %s of WorkingMemory.%s", fnName(fn), kind, f.Name())
+				pm, ok := allowed[root]
+				if !ok {
+					c.Fail(key, p.InstrPos(in), fmt.Sprintf("WorkingMemory.%s is written outside registration (Add*), IndexVariables, Clone, NewWorkingMemory and BuildKnowledgeBase", f.Name()))
+					continue
+				}
+				good := false
+				switch {
+				case kind == "replace" && isIdx(f):
+					good = pm.idxReplace
+				case kind == "replace":
+					good = pm.onOwnAllocOnly
+				case isIdx(f):
+					good = pm.idxUpdate
+				default:
+					good = pm.regUpdate
+				}
+				if good && pm.onOwnAllocOnly {
+					_, isAlloc := base.(*ssa.Alloc)
+					isNew := false
+					if call, ok := base.(*ssa.Call); ok {
+						isNew = call.Call.StaticCallee() != nil && call.Call.StaticCallee() == p.Func("ast", "NewWorkingMemory")
+					}
+					if !isAlloc && !isNew {
+						good = false
+					}
+				}
+				if !good {
+					c.Fail(key, p.InstrPos(in), fmt.Sprintf("%s may not %s WorkingMemory.%s (constructors write only the memory they allocate; Add* only register; IndexVariables only rebuilds the index)", names[root], kind, f.Name()))
+					continue
+				}
+				c.OK(key, p.InstrPos(in), "writer is "+names[root])
+			}
+		}
+	}
+	c.Notes = append(c.Notes, fmt.Sprintf("working-memory map writes found: %d", writes))
+}
